@@ -15,7 +15,7 @@ common.import_repo()
 from autobean_refactor import models  # noqa: E402
 
 INITS = ['1', '1+2', '3-1-1', '2*3', '6/2/3', '-2', '(1)', '(1+2)*3', '1+2*3', '-(1+2)', '+-1']
-OPERANDS = '{<<"int",2>>,<<"int",-3>>,<<"expr","1+2">>,<<"expr","2*3">>,<<"expr","-2">>,<<"expr","1">>}'
+OPERANDS = '{<<"int",2>>,<<"int",-3>>,<<"int",0>>,<<"expr","1+2">>,<<"expr","2*3">>,<<"expr","-2">>,<<"expr","1">>,<<"neg","1+2">>}'
 HOSTS = {
     'free': None,
     'posting': ('2000-01-01 *\n    Assets:A  ', ' USD {2 EUR} @ 3 CAD ; ic\n    Assets:B\n'),
@@ -81,6 +81,7 @@ def replay(beh: list[dict], host: str, variant: int, attached_operand: bool) -> 
     if py_eval(t0) != a.value:
         findings.append(('value', 'parse', f'parse({t0!r}).value = {a.value}, usual arithmetic gives {py_eval(t0)}'))
     steps = 0
+    frozen: list = []          # (object, text) of operands / documents of earlier non-in-place steps
     for k, ev in enumerate(beh[1:], 1):
         op, form, o = ev['op'], ev['form'], ev['operand']
         fp = f'{op}/{form}/{o[0]}'
@@ -90,6 +91,8 @@ def replay(beh: list[dict], host: str, variant: int, attached_operand: bool) -> 
             b = None
         elif o[0] == 'int':
             b = o[1] if (k + variant) % 2 else decimal.Decimal(o[1])
+        elif o[0] == 'neg':
+            b = -tree.parse(render(_init_tokens(o[1]), variant + 1), models.NumberExpr)     # the direct result of a unary minus
         elif attached_operand:
             b, bdoc, _, _ = get_expr('posting', render(_init_tokens(o[1]), variant + 1))
         else:
@@ -124,7 +127,7 @@ def replay(beh: list[dict], host: str, variant: int, attached_operand: bool) -> 
         except Exception as e:  # noqa: BLE001
             exc = f'{type(e).__name__}: {e}'
         steps += 1
-        if form == 'inplace' and attached_operand and isinstance(b, models.NumberExpr):
+        if form == 'inplace' and bdoc is not None and isinstance(b, models.NumberExpr):
             # an operand that lives in a document cannot be consumed: refusal, and a stutter (C19)
             if exc != 'ValueError':
                 findings.append(('refusal', fp, f'in-place {op} with an operand attached elsewhere ended with {exc or "success"}'))
@@ -159,6 +162,13 @@ def replay(beh: list[dict], host: str, variant: int, attached_operand: bool) -> 
                 findings.append(('operand', fp, f'document of the left operand changed: {doc_text!r} -> {tree.text_of(doc)!r}'))
             if bdoc is not None and tree.text_of(bdoc) != bdoc_text:
                 findings.append(('operand', fp, f'document of the right operand changed: {bdoc_text!r} -> {tree.text_of(bdoc)!r}'))
+            frozen.append((a, a_text, 'the left operand'))
+            if isinstance(b, models.NumberExpr):
+                frozen.append((b, b_text, 'the right operand'))
+            if doc is not None:
+                frozen.append((doc, doc_text, 'the document'))
+            if bdoc is not None:
+                frozen.append((bdoc, bdoc_text, 'the operand document'))
             a, doc = r, None
         else:
             if doc is not None:
@@ -175,6 +185,10 @@ def replay(beh: list[dict], host: str, variant: int, attached_operand: bool) -> 
                 bad = tree.wellformed(doc)
                 if bad:
                     findings.append(('tree', fp, '; '.join(bad[:2])))
+        for obj, txt, what in frozen:
+            if tree.text_of(obj) != txt:
+                findings.append(('operand', fp, f'{what} of an earlier non-in-place operation changed later: {txt!r} -> {tree.text_of(obj)!r}'))
+                break
         if findings:
             break
     return findings, steps
@@ -197,7 +211,7 @@ def _chunk(arg: tuple) -> tuple[int, list]:
         beh = json.loads(s)
         for host in hosts:
             for att in ((False, True) if attached else (False,)):
-                if att and not any(ev['operand'][0] == 'expr' for ev in beh[1:]):
+                if att and not any(ev['operand'][0] == 'expr' for ev in beh[1:]):      # only 'expr' operands can be attached
                     continue
                 fnd, st = replay(beh, host, n, att)
                 steps += st
